@@ -657,6 +657,23 @@ static int op_growrun(const char* kind, unsigned long long n) {
   return 1;
 }
 
+
+/* FLTGET <tree-leaf>: a float item (h(..) / s(..) / d(..), built through cbor_build_* or, with '!', cbor_new_* + cbor_set_*): the value read back through the
+   width-specific getter and through cbor_float_get_float, as bit patterns:  <width> <bits at its width> <bits of the double returned by cbor_float_get_float> */
+static int op_fltget(const char* tree) {
+  cbor_item_t* it = parse_tree(tree);
+  if (!it || !cbor_isa_float_ctrl(it) || !cbor_is_float(it)) { printf("bad-tree\n"); if (it) cbor_decref(&it); return 1; }
+  double g = cbor_float_get_float(it); uint64_t gb; memcpy(&gb, &g, 8);
+  switch (cbor_float_get_width(it)) {
+    case CBOR_FLOAT_16: { float f = cbor_float_get_float2(it); uint32_t b; memcpy(&b, &f, 4); printf("16 %u %" PRIu64 "\n", b, gb); break; }
+    case CBOR_FLOAT_32: { float f = cbor_float_get_float4(it); uint32_t b; memcpy(&b, &f, 4); printf("32 %u %" PRIu64 "\n", b, gb); break; }
+    case CBOR_FLOAT_64: { double f = cbor_float_get_float8(it); uint64_t b; memcpy(&b, &f, 8); printf("64 %" PRIu64 " %" PRIu64 "\n", b, gb); break; }
+    default: printf("0 0 %" PRIu64 "\n", gb);
+  }
+  cbor_decref(&it);
+  return 1;
+}
+
 int hist_op(int argc, char** w);
 
 int tree_op(int argc, char** w) {
@@ -678,5 +695,6 @@ int tree_op(int argc, char** w) {
   if (argc == 3 && !strcmp(w[0], "GROWAT")) return op_growat(w[1], strtoull(w[2], 0, 10));
   if (argc == 2 && !strcmp(w[0], "LOADSEQ")) return op_loadseq(w[1]);
   if (argc == 3 && !strcmp(w[0], "GROWRUN")) return op_growrun(w[1], strtoull(w[2], 0, 10));
+  if (argc == 2 && !strcmp(w[0], "FLTGET")) return op_fltget(w[1]);
   return hist_op(argc, w);
 }
